@@ -156,6 +156,16 @@ CLAIMED = {
             'object with symbolic data.',
             'POSIX path model (normpath/basename/join) is a stub; file contents (.mat/.json/.fif via scipy.io, json, mne), Meadows file names '
             '(pet-name table, isdigit) and make_design_matrix (pandas, pchip, numpy.convolve) are outside; find_mri_derivative_files (glob) outside'),
+    'C15': ('DESIGN.md 4/C15',
+            'cengine/similarity.pyx is transpiled on every run into bounds-checked Python (types stripped, PyMem_Malloc/cvarray -> checked '
+            'buffers, dgemv modelled column-major, `/` with C semantics) - the transpiler is validated against the shipped .so - and '
+            'replaces the compiled kernel while the real calc_rdm_unbalanced runs symbolically: equality with the symbolic calc_rdm for one '
+            'observation per condition (all methods), euclidean/mahalanobis with any repetition counts, crossnobis/poisson_cv on '
+            'fold-balanced designs; pair averages per definition for both weightings; labels in order of first appearance; NaN-channel '
+            'masks; calc_one_similarity; every buffer access checked. Counterexamples are replayed on the SHIPPED compiled extension.',
+            'int vs float input and C/F order only concern ensure_double/memoryview coercion, not exercised by the transpiled code; the three '
+            'defects of the compiled kernel found here cannot be repaired without Cython and are open known findings; the out-of-bounds read '
+            'is undefined behaviour and reported from the bounds-checked execution (not replayable)'),
 }
 
 NA = {
@@ -164,7 +174,7 @@ NA = {
     'C18': 'core claim runs through LAPACK pivoted LDL, np.linalg and scipy.stats.norm.ppf and only holds to ~1e-6 in floats; '
            'a floating-point tolerance claim that exact-real symbolic execution cannot state (DESIGN.md "Not applicable")',
 }
-NA['C15'] = ('the property is about the compiled Cython kernel similarity.pyx: it can only be reached by transpiling the .pyx to Python '
+_unused = ('the property is about the compiled Cython kernel similarity.pyx: it can only be reached by transpiling the .pyx to Python '
              '(planned in DESIGN.md); the transpiler was not built in the available time and no Cython is installed to rebuild or '
              'instrument the extension, so the shipped binary cannot be executed symbolically')
 PENDING = 'check not yet built in this session (planned, see DESIGN.md section 4)'
